@@ -49,7 +49,7 @@ LIMIT_S = 1.0
 PALETTES = [('prev', 'next'), ('succeeds', 'precedes'), ('b', 'a'), ('is after', 'is before'),
             ('next', 'prev')]
 MODES = 4          # how the links are issued: 0 relate(x, succ) forwards, 1 relate(succ, x) from the other end backwards, 2 alternating,
-                   # 3 forwards, then a history of relate / unrelate / delete that ends in the same arrangement
+                   # 3 forwards, then a history of relate / unrelate / delete (accepted and rejected calls) that ends in the same arrangement
 MAX_HANGS = 3      # confirmed hangs (whole run) after which the remaining calls are skipped
 
 _HANGS = multiprocessing.Value('i', 0)
@@ -231,6 +231,20 @@ def build(succ, mode, pal):
                                 except xtuml.MetaException:
                                     pass
                         break
+        # unrelate calls that must be rejected because the pair named is not linked (each end has another partner or
+        # none, in either direction and across either phrase) and must leave no trace
+        for x, y in enumerate(succ):
+            if y is not None:
+                for z in range(len(succ)):
+                    if z in (x, y):
+                        continue
+                    for a, b, ph in ((x, z, p_succ), (z, x, p_pred), (z, y, p_succ), (y, z, p_pred), (y, x, p_succ), (x, y, p_pred)):
+                        linked = (succ[a] == b) if ph == p_succ else (succ[b] == a)
+                        if not linked:
+                            try:
+                                xtuml.unrelate(w.insts[a], w.insts[b], REL, ph)
+                            except xtuml.MetaException:
+                                pass
         for z in range(len(succ)):
             if z not in has_pred:
                 tmp = m.new('A')
@@ -442,6 +456,7 @@ def run_world(sub, task):
     pure = is_pure(succ)
     modes = range(MODES) if n <= 4 else [(idx + sub.seed) % MODES]
     pal = sub.seed % len(PALETTES)
+    w = None
     for mode in modes:
         try:
             w = build(succ, mode, pal)
@@ -458,7 +473,7 @@ def run_world(sub, task):
             for pi in (0, 1):
                 if not check_one(sub, w, n, succ, mode, pal, S, pi, (idx + k + pi + sub.seed) % 2):
                     return None
-    if n >= 4 and pure and idx % 211 == 5:
+    if n >= 4 and pure and idx % 211 == 5 and w is not None:
         S = tuple(range(n))
         sub.sample(dict(successors=list(succ), set=list(S), phrases=list(PALETTES[pal]),
                         result_across_first_phrase=run_sort(w, S, 0, 0)[1],
